@@ -154,8 +154,8 @@ static int parse_once(const uint8_t *doc, size_t len, const uint8_t *sel, struct
     opts->text_prefixing_modifier = tri[(sel[2] >> 2) % 4];
     opts->default_encoding_name = encodings[sel[3] % 8];
     opts->force_default_encoding = ((sel[3] >> 3) % 4 == 0);
-    opts->extra_ws_chars = (sel[4] & 1) ? "\v" : NULL;
-    opts->extra_eol_chars = (sel[4] & 2) ? "\f" : NULL;
+    opts->extra_ws_chars = (sel[4] & 1) ? "\v" : ((sel[4] & 4) ? "\xa0\xb5\xff" : NULL);
+    opts->extra_eol_chars = (sel[4] & 2) ? "\f" : ((sel[4] & 8) ? "\xa1\xc9\xfe" : NULL);
     opts->user_data = st;
     opts->error_callback = with_callback ? on_error : NULL;
     *options_valid = 1;
